@@ -29,14 +29,33 @@ func HarnessCoalescedPair() {
 	reqA := newReq("GET", "o.test", "/c", "", nil)
 	reqB := newReq("GET", "o.test", "/c", "", nil)
 	key := cache.MakeFromRequest(reqA)
-	// pre-state of the key: cold, or (cacheable outcome only) already stored and fresh
-	primed := outcome == 0 && symChoice(2) == 1
-	if primed {
+	// pre-state of the key: cold, or (cacheable outcome only) already stored and fresh, or
+	// stored and stale (the shared fetch is then a revalidation answered 304 or 200)
+	pre := 0
+	if outcome == 0 {
+		pre = symChoice(3)
+	}
+	primed := pre == 1
+	stale := pre == 2
+	if pre != 0 {
 		vClockFreeze(true)
+		t0 := time.Now()
 		c0 := e.plain(newReq("GET", "o.test", "/c", "", nil))
 		vAssert(c0.status == 200, "c05.priming-failed")
 		e.o.seen = nil
-		vReach("fresh-key")
+		if primed {
+			vReach("fresh-key")
+		} else {
+			vClockFreeze(false)
+			t1 := time.Now()
+			vAssume(t1.Sub(t0) > 2*time.Minute && t1.Sub(t0) < time.Hour)
+			if symChoice(2) == 1 {
+				e.o.script = []originResp{e.o.script[0], {status: 304, header: hdr("Etag", "\"a\"")}, {status: 200, header: h, body: []byte("BOD3")}}
+				vReach("stale-key-304")
+			} else {
+				vReach("stale-key-200")
+			}
+		}
 	}
 	vClockFreeze(true)
 	now := time.Now()
@@ -105,7 +124,11 @@ func HarnessCoalescedPair() {
 	if primed && window == 0 {
 		vAssert(len(e.o.seen) == 0, "c05.fresh-entry-refetched")
 	}
-	if outcome == 0 && window == 0 && !primed {
+	if stale && window == 0 {
+		vAssert(len(e.o.seen) == 1, "c05.coalesced-revalidation-hit-origin-more-than-once")
+		vAssert(string(ba) == string(bb), "c05.coalesced-body-differs")
+	}
+	if outcome == 0 && window == 0 && pre == 0 {
 		vAssert(len(e.o.seen) == 1, "c05.coalesced-fetch-hit-origin-more-than-once")
 		vAssert(string(ba) == "BODY" && string(bb) == "BODY", "c05.coalesced-body-differs")
 	}
